@@ -802,18 +802,18 @@ class StepParameterSpaceDefinition(OpenJDModel_v2023_09):
         unique_parameter_names = set(parameter_names)
 
         errors = list[ErrorWrapper]()
-        if len(unique_expr_identifiers) < len(unique_parameter_names):
+        missing = sorted(list(unique_parameter_names - unique_expr_identifiers))
+        if missing:
             # Missing some parameter identifiers in the expression
-            missing = sorted(list(unique_parameter_names - unique_expr_identifiers))
             errors.append(
                 ErrorWrapper(
                     ValueError(f"Expression missing parameters: {','.join(missing)}"),
                     ("combination",),
                 )
             )
-        if len(unique_parameter_names) < len(unique_expr_identifiers):
+        extra = sorted(list(unique_expr_identifiers - unique_parameter_names))
+        if extra:
             # Have some extra parameters referenced in the expression
-            extra = sorted(list(unique_expr_identifiers - unique_parameter_names))
             errors.append(
                 ErrorWrapper(
                     ValueError(f"Expression references undefined parameters: {','.join(extra)}"),
